@@ -158,7 +158,44 @@ def r2_forced_nofollow(ctx):
     # the emulated final open keeps O_NOFOLLOW
     ob = F.body(OPR)
     obits = ipa.bits_of(ob.path)
+    out.extend(final_link_not_followed_under_nofollow(ctx))
     return out
+
+
+def final_link_not_followed_under_nofollow(ctx, rid="C07.R2"):
+    """Emulated procfs walk specialised on `oflags ⊇ O_NOFOLLOW` (what ProcfsHandle::open always passes): once the
+    component queue is empty, no path decided by the flag tests leads to reading the link body -- the final component
+    is returned (or refused) as it is, never followed. Decided by the BITS facts about the oflags parameter
+    (contains / intersection-compare tests), the variant-pruned CFG, and a reachability cut at the loop header."""
+    from ..bits import Bits, Val, BV, M64
+    F = ctx.facts
+    b = F.body(OPR)
+    cfg = cfg_of(b)
+    key = "opath_resolve:final-link-not-followed-under-nofollow"
+    rl = list(b.calls("syscalls::readlinkat"))
+    gates = []
+    for t in b.calls():
+        c = t.callee or ""
+        if c.startswith("std::collections::VecDeque") and c.endswith("::is_empty"):
+            be = bool_edges(b, t)
+            if be:
+                gates.append((t, be))
+    pidx = [i + 1 for i, ty in enumerate(b.param_tys) if ty.endswith("OpenFlags")] if hasattr(b, "param_tys") else []
+    if not pidx:
+        pidx = [l for l in range(1, b.argc + 1) if (b.local_tys[l] or "").endswith("OpenFlags")]
+    if not rl or not gates or len(pidx) != 1:
+        return [violated(rid, key, b.where(), "walk has no readlinkat / queue-emptiness test / single OpenFlags parameter (anchor drift)")]
+    p = pidx[0]
+    bits = Bits(b, entry={(p, ()): Val([BV(O_NOFOLLOW, 0, (), M64, ("param", b.path, p))])})
+    feas = bits.feasible_edges()
+    dead = [e.key() for bb in cfg.succ for e in cfg.succ[bb] if e.key() not in feas]
+    hdrs = list(cfg.natural_loops())
+    start = [e for (_t, be) in gates for e in be["true"] if e.key() in feas]
+    reach = cfg.edge_targets_reachable(start, cut_nodes=hdrs, cut_edges=dead)
+    bad = [r for r in rl if r.bb in reach]
+    if bad:
+        return [violated(rid, key, bad[0].where(), "with O_NOFOLLOW in the open flags the emulated procfs walk can still read and follow the body of the final component (a trailing symlink is followed although the caller forbade it)")]
+    return [holds(rid, key, gates[0][0].where(), "oflags ⊇ O_NOFOLLOW: after the last component no feasible path reaches readlinkat (%d edges decided by flag facts)" % len(dead))]
 
 
 def creation_flag_sinks(ctx):
